@@ -321,6 +321,8 @@ func guard(o *Outcome, entry string, f func()) (panicked bool) {
 }
 
 func execWorld(t *testing.T, pl Plan, seed uint64, o *Outcome) {
+	sharedOpts = map[string]delegation.Option{}
+	defer func() { sharedOpts = nil }()
 	p := pl.(*WorldPlan)
 	w := &worldExec{t: t, o: o, outbox: map[string]*artefact{}, ledger: map[string]*artefact{}}
 	for _, c := range p.Cast {
@@ -636,8 +638,15 @@ func (w *worldExec) delegate(s *DlgSpec) {
 	o := w.o
 	var tk *delegation.Token
 	var err error
+	_, reusedOpt := sharedOpts[s.ShareOpt]
 	if guard(o, "delegation.New", func() { tk, err = buildDelegation(w.cast, *s) }) {
 		return
+	}
+	if s.ShareOpt != "" && reusedOpt && s.Exp != nil && err == nil && tk != nil && tk.Expiration() != nil {
+		// a delegation that REUSES an option value "valid for D": its expiry is its own issue time
+		// plus the D the option was made with, whatever the plan says after minimisation; the model
+		// takes it from the token just built (the EARLIER holders of the option keep their own)
+		s.Exp = ptr(tk.Expiration().Unix() - simEpochUnix)
 	}
 	o.Eval("C10")
 	if err != nil || tk == nil {
@@ -664,6 +673,25 @@ func (w *worldExec) delegate(s *DlgSpec) {
 	}
 	if err != nil {
 		o.Violate("C07", "seal-failed", fmt.Sprintf("delegation %s by %s cannot be sealed: %v", s.Label, w.cast[s.Iss%len(w.cast)].Alg, err), map[string]string{"alg": w.cast[s.Iss%len(w.cast)].Alg})
+		return
+	}
+	if s.RawCmd != "" {
+		// a deviating issuer signs what no constructor would let through: the command text is
+		// rewritten in the sealed bytes and the envelope signed again with the issuer's real key
+		env, oerr := openEnvelope(sealed)
+		if oerr != nil {
+			return
+		}
+		env.payload.MapSet("cmd", cbText(s.RawCmd))
+		if env.resign(ent.priv) != nil {
+			return
+		}
+		sealed = env.bytes()
+		s.Cmd = s.RawCmd
+		a := &artefact{label: s.Label, kind: "dlg", sealed: sealed, cid: harnessCID(sealed), dspec: s, obj: nil, bornNS: nowNS()}
+		w.outbox[s.Label] = a
+		w.ledger[cidHex(a.cid)] = a
+		o.Logf("delegate %s (raw command) cid=%s len=%d", s.Label, cidHex(a.cid)[:16], len(sealed))
 		return
 	}
 	a := &artefact{label: s.Label, kind: "dlg", sealed: sealed, cid: harnessCID(sealed), dspec: s, obj: tk, bornNS: nowNS()}
